@@ -29,6 +29,11 @@ COMPILERS = {
                           "-fno-sanitize-recover=all", "-fno-sanitize=object-size", "-Wno-everything"],
     "gcc-rel": ["g++", "-std=c++17", "-O2", "-DNDEBUG", "-w"],
     "gcc-dbg": ["g++", "-std=c++17", "-O0", "-g", "-w"],
+    # programs with shared libraries (dlopen / dlclose): template statics must not be STB_GNU_UNIQUE,
+    # otherwise glibc never unloads the library
+    "gcc-dl": ["g++", "-std=c++17", "-O1", "-g", "-w", "-fno-gnu-unique", "-fPIC"],
+    "clang-dl-asan": ["clang++-14", "-std=c++17", "-O0", "-g", "-fPIC", "-fsanitize=address,undefined", "-fno-sanitize-recover=all",
+                      "-fno-sanitize=object-size,vptr", "-Wno-everything"],
 }
 
 
@@ -46,10 +51,31 @@ class Program:
 def _run_one(prog, flavour, workdir):
     src = os.path.join(workdir, prog.name + ".cpp")
     exe = os.path.join(workdir, prog.name + "-" + flavour)
-    if not os.path.exists(src):
+    if not os.path.exists(src) and not getattr(prog, "extra_files", None):
         with open(src, "w") as f:
             f.write(prog.source)
-    cmd = COMPILERS[flavour] + ["-I%s/include" % vfbuild.repo_dir(), src, "-o", exe, "-pthread", "-ldl"]
+    extra = getattr(prog, "extra_files", None)
+    if extra:
+        # a main program plus shared libraries, in their own directory (the program finds the
+        # libraries next to its executable)
+        pdir = os.path.join(workdir, prog.name + "-" + flavour + ".d")
+        os.makedirs(pdir, exist_ok=True)
+        for fn, content in extra.items():
+            with open(os.path.join(pdir, fn), "w") as f:
+                f.write(content)
+        src = os.path.join(pdir, "main.cpp")
+        with open(src, "w") as f:
+            f.write(prog.source)
+        exe = os.path.join(pdir, "main")
+        for lib in prog.shared_libs:
+            cmd = COMPILERS[flavour] + ["-shared", "-I%s/include" % vfbuild.repo_dir(), "-I" + pdir, os.path.join(pdir, lib + ".cpp"),
+                                       "-o", os.path.join(pdir, lib + ".so")]
+            p = subprocess.run(cmd, stdout=subprocess.PIPE, stderr=subprocess.STDOUT, text=True, errors="replace")
+            if p.returncode != 0:
+                return (flavour, [], 0, [], None, p.stdout[-6000:])
+        cmd = COMPILERS[flavour] + ["-I%s/include" % vfbuild.repo_dir(), "-I" + pdir, src, "-o", exe, "-Wl,-export-dynamic", "-pthread", "-ldl"]
+    else:
+        cmd = COMPILERS[flavour] + ["-I%s/include" % vfbuild.repo_dir(), src, "-o", exe, "-pthread", "-ldl"]
     p = subprocess.run(cmd, stdout=subprocess.PIPE, stderr=subprocess.STDOUT, text=True, errors="replace")
     if p.returncode != 0:
         return (flavour, [], 0, [], None, p.stdout[-6000:])
